@@ -148,11 +148,12 @@ class ExpDriver:
         st = self.s.get_state()["state"]
         out = {}
         for k, name in STATE_KEYS.items():
-            if name in st:
-                v = st[name]
-                out[k] = None if v is None else np.array(v, dtype=float).reshape(-1).copy()
+            # the state dictionary (checkpoint content); an attribute that is not part of it is read from the sampler
+            v = st[name] if name in st else getattr(self.s, name, None)
+            if v is not None:
+                out[k] = np.array(v, dtype=float).reshape(-1).copy()
         if "x" not in out or "scale" not in out:
-            raise MachineryError("get_state() of %s has no current_point / scale" % self.cls.__name__)
+            raise MachineryError("%s exposes no current_point / scale" % self.cls.__name__)
         return out
 
     def transition(self, normals, uniforms, warm):
@@ -403,7 +404,17 @@ def run_behaviour(ctx, beh, rows, sv0, root, real="user", sigprefix="replay", sa
         exp = expect_state(last_d, None if (warm and cfg["iface"] == "exp") else cur_sv)
         prev_exp = exp
         got = drv.state()
-        # (1) the proposal the code evaluated
+        # (1) non-finite proposals are never accepted, whatever the uniform (first: an accepted NaN component changes what follows)
+        for i, (p, d) in enumerate(pairs):
+            if d["cls"] == "Any":
+                moved = not close(got["x"], pre["x"]) if k != "CW" else bool(acc.size > i and acc[i] > 0)
+                if moved or (k != "CW" and acc.size and acc[0] > 0):
+                    kindnf = "NaN" if math.isnan(ext(p["tv"])) else "NegInf"
+                    ctx.mismatch("%s/nonfinite_accept/%s" % (base, kindnf), dict(case, pos=pos),
+                                 "a proposal whose log-density is %s was accepted (uniform %g)" % (kindnf, us[i]),
+                                 expected={"acc": 0, "x": pre["x"]}, observed={"acc": acc, "x": got["x"]})
+                    return done
+        # (2) the proposal the code evaluated
         if T is not None:
             seen = T.evals[n0:]
             for p, d in pairs:
@@ -415,16 +426,6 @@ def run_behaviour(ctx, beh, rows, sv0, root, real="user", sigprefix="replay", sa
                     ctx.mismatch("%s/%s" % (base, clause), dict(case, pos=pos),
                                  "the target was not evaluated at the proposal of the modelled mechanism (noise xi=%s)" % (p["xi"],),
                                  expected=y, observed=seen)
-                    return done
-        # (2) non-finite proposals are never accepted, whatever the uniform
-        for i, (p, d) in enumerate(pairs):
-            if d["cls"] == "Any":
-                moved = not close(got["x"], pre["x"]) if k != "CW" else bool(acc.size > i and acc[i] > 0)
-                if moved or (k != "CW" and acc.size and acc[0] > 0):
-                    kindnf = "NaN" if math.isnan(ext(p["tv"])) else "NegInf"
-                    ctx.mismatch("%s/nonfinite_accept/%s" % (base, kindnf), dict(case, pos=pos),
-                                 "a proposal whose log-density is %s was accepted (uniform %g)" % (kindnf, us[i]),
-                                 expected={"acc": 0, "x": pre["x"]}, observed={"acc": acc, "x": got["x"]})
                     return done
         # (3) acceptance flag(s): the decision for a uniform just below / above exp(r)
         eacc = np.array([d["acc"] for _, d in pairs], dtype=float)
